@@ -122,6 +122,7 @@ def theorem_names(pid):
 
 
 # the translator half of the tie: Lean modules regenerated from the library source on every run
+TRANSLATOR_NOTES = []
 GENERATED = [("extract_consts.py", "SrcConsts.lean"),     # tuning constants (C05, C07, C14, C01)
              ("extract_tables.py", "SrcTables.lean")]     # format / header tables (C09, C18, C19, C01, ...)
 
@@ -130,16 +131,28 @@ def regenerate_sources():
     """the translator half of the tie: DdsModel/SrcConsts.lean (tools/extract_consts.py: tuning constants) and
     DdsModel/SrcTables.lean (tools/extract_tables.py: the format / header tables) are regenerated from the working
     tree on every run, so the theorems that mention them are re-checked for the current values / rows. A file is
-    rewritten only when its content changes (the unchanged tree stays a lake no-op). A translator that cannot parse
-    the source any more is a failure string (reported as a broken correspondence; the last generated file is kept).
+    rewritten only when its content changes (the unchanged tree stays a lake no-op). A constants translator
+    that cannot parse the source any more is a failure string (reported as a broken correspondence; the last generated
+    file is kept); for the table translator see the comment below (fallback to the pinned rows + exhaustive row tie).
     Returns a failure string or None. In ALT mode (mutation runs) a tree whose constants or tables differ from
     /verif's gets a private copy of the Lean project under DDSV_OUT, so concurrent runs do not disturb each other."""
     global LEAN, DRIVER
     repo = ALT_REPO or "/repo"
     fails, changed = [], {}
+    TRANSLATOR_NOTES.clear()
     for tool, fname in GENERATED:
         rc, out, err = sh([os.path.join(ROOT, "tools", tool), repo])
         if rc != 0:
+            if fname == "SrcTables.lean":
+                # The table translator does not recognise the (rewritten) table code. That alone says nothing about
+                # the properties: fall back to the tables generated last (those of the committed tree — a pinned
+                # model, as before the translator existed) and let the row-by-row comparison of the correspondence
+                # run decide: every row of every table is compared with the implementation on each run, so a table
+                # that really changed shows up as a disagreement, and a pure refactor stays quiet.
+                TRANSLATOR_NOTES.append(f"translator tools/{tool} could not parse the source ({err.strip()[-200:]}); "
+                                        "the tables generated last are used as a pinned model and are validated row by row "
+                                        "by the correspondence run")
+                continue
             fails.append(f"translator tools/{tool}: " + err.strip()[-300:])
             continue
         path = os.path.join(LEAN, "DdsModel", fname)
@@ -481,6 +494,8 @@ def run_one(pid, report_pid, tier, seed, replay_payload):
         exit_code = 1
     for k, case, msgs in known_hits:
         out_lines.append(f"KNOWN-FINDING: property={report_pid} {k['id']}: {k['what']}")
+    for n in TRANSLATOR_NOTES:
+        out_lines.append("note: " + n)
 
     wall = round(time.time() - t0, 2)
     cov = {
@@ -499,6 +514,7 @@ def run_one(pid, report_pid, tier, seed, replay_payload):
         "oracle_failures": len(oracle),
         "known_findings_matched": [k["id"] for k, _, _ in known_hits],
         "failing_input_search": search or {"ran": False},
+        "translator_notes": list(TRANSLATOR_NOTES),
         "bad_cases": len(bad_cases),
         "profiles": profiles,
         "class_histogram": dict(sorted(hist.items(), key=lambda kv: -kv[1])[:60]),
